@@ -99,7 +99,7 @@ def field_mentions(facts, adt, fidx, skip_aggregates=True):
     return out
 
 
-def container_mutations(facts, adt, fidx, exclude_fns=(), allowed_suffixes=("::push", "::push_back", "::reserve", "::reserve_exact", "::shrink_to_fit", "::extend", "::extend_one"),
+def container_mutations(facts, adt, fidx, exclude_fns=(), allowed_suffixes=("::push", "::push_back", "::push_front", "::insert", "::reserve", "::reserve_exact", "::shrink_to_fit", "::extend", "::extend_one"),
                         allow_local=False):
     """Uses of `&mut <adt>.field#fidx` (the guards container) outside `exclude_fns` that are not a plain append:
     (fn path, callee or 'assignment', line). Removing, reordering or replacing elements of the container outside the
